@@ -371,6 +371,11 @@ def _run_pool(tasks, jobs, t0):
                     except Exception:
                         pass
                     w.update(spawn())
+                    if not t[5].get('retried'):
+                        # a worker process that vanished (killed by the system under memory pressure, a crash inside the solver): once more in a fresh worker
+                        pending.append((len(results) + len(pending), (t[0], t[1], t[2], t[3], t[4], dict(t[5], retried=True))))
+                        w['task'] = None
+                        continue
                 if r.get('stuck') and not t[5].get('retried'):
                     # z3 ignored its timeout and the interrupt (seen under heavy machine load): run the task once more in a fresh worker before
                     # reporting it as undecided
